@@ -263,6 +263,7 @@ static void scen_dc_sync_1_1_2(void)    { run_dc(0, 3, 1, 1, 2); }
 static void scen_dc_sync_1_2_3(void)    { run_dc(0, 3, 1, 2, 3); }
 static void scen_dc_sync_1_1(void)      { run_dc(0, 2, 1, 1, 0); }
 static void scen_dc_sync_1_2(void)      { run_dc(0, 2, 1, 2, 0); }
+static void scen_dc_defer_1(void)       { run_dc(1, 2, 1, 9, 0); }
 static void scen_dc_defer_0_0(void)     { run_dc(1, 3, 0, -1, 9); }
 static void scen_dc_defer_1_1(void)     { run_dc(1, 3, 1, 1, 9); }
 static void scen_dc_defer_1_2(void)     { run_dc(1, 3, 1, 2, 9); }
@@ -281,24 +282,24 @@ static void setup(void)
 }
 
 #define S(id, mb) { #id, scen_##id, mb }
-static cs_scenario_t set_s[] = {   /* small: 2-3 threads, <= ~30 points per execution (2-thread data-copy scripts: <= 75) */
-    S(bf_set_set_get, 0), S(bf_set_set_poll, 0), S(cf2_set_set_get, 0), S(cf3_setset_set_get, 0), S(dc_sync_1_1, 0), S(dc_sync_1_2, 0),
+static cs_scenario_t set_s[] = {   /* small: the quick tier runs these at preemption bound 2 */
+    S(bf_set_set_get, 0), S(cf2_set_set_get, 0), S(dc_sync_1_1, 0), S(dc_sync_1_2, 0), S(dc_defer_1, 0),
 };
-static cs_scenario_t set_m[] = {   /* medium: the other 3-thread scripts */
-    S(bf_set_get_get, 0), S(cf1_set_get_poll, 0), S(cf2_setset_get_poll, 0),
-    S(dc_sync_0_0_0, 0), S(dc_sync_0_1_1, 0), S(dc_sync_1_1_2, 0), S(dc_sync_1_2_3, 0),
-    S(dc_defer_0_0, 0), S(dc_defer_1_1, 0), S(dc_defer_1_2, 0), S(dc_defer_0_1, 0),
+static cs_scenario_t set_q[] = {   /* the quick tier runs these at preemption bound 1 */
+    S(bf_set_set_poll, 0), S(bf_set_get_get, 0), S(cf1_set_get_poll, 0), S(cf2_setset_get_poll, 0), S(cf3_setset_set_get, 0),
+    S(dc_sync_0_0_0, 0), S(dc_sync_0_1_1, 0), S(dc_sync_1_1_2, 0), S(dc_sync_1_2_3, 0), S(dc_defer_0_0, 0),
 };
-static cs_scenario_t set_l[] = {   /* 4 threads */
+static cs_scenario_t set_x[] = {   /* thorough only: deferred completion with two readers, 4 threads */
+    S(dc_defer_1_1, 0), S(dc_defer_0_1, 0), S(dc_defer_1_2, 0),
     S(bf_set_set_get_get, 0), S(bf_set_set_set_nocb, 0), S(cf3_set_set_set_get, 0),
 };
 #define N(a) (int)(sizeof(a) / sizeof(a[0]))
 int main(int argc, char **argv)
 {
-    static cs_scenario_t all[N(set_s) + N(set_m) + N(set_l)]; int n = 0;
-    const char *set = getenv("C29_SET");            /* unset (replay): every scenario; else a list out of s,m,l */
+    static cs_scenario_t all[N(set_s) + N(set_q) + N(set_x)]; int n = 0;
+    const char *set = getenv("C29_SET");            /* unset (replay): every scenario; else a list out of s,q,x */
     if (!set || strchr(set, 's')) for (int i = 0; i < N(set_s); i++) all[n++] = set_s[i];
-    if (!set || strchr(set, 'm')) for (int i = 0; i < N(set_m); i++) all[n++] = set_m[i];
-    if (!set || strchr(set, 'l')) for (int i = 0; i < N(set_l); i++) all[n++] = set_l[i];
+    if (!set || strchr(set, 'q')) for (int i = 0; i < N(set_q); i++) all[n++] = set_q[i];
+    if (!set || strchr(set, 'x')) for (int i = 0; i < N(set_x); i++) all[n++] = set_x[i];
     return cs_main(argc, argv, "C29", all, n, setup);
 }
